@@ -1,6 +1,6 @@
 SPECIFICATION Spec
 CONSTANTS
-  NCalls = 27
+  NCalls = 29
   MaxLen = 3
 INVARIANT ModesRestored
 INVARIANT NoLeak
